@@ -161,6 +161,39 @@ def timeToExcelTimeNs (t : Int) (date1904 : Bool) : Int :=
     let r := result * dayNanoseconds + (diff - rem) + rem
     if !date1904 && t > buggyStart then r + dayNanoseconds else r
 
+/-- the float64 operations `timeToExcelTime` performs (each one rounds): conversion of an
+`int64`/`Duration`/integer constant, addition, division -/
+structure FloatOps (F : Type) where
+  ofInt : Int → F
+  add : F → F → F
+  div : F → F → F
+
+/-- the chunk loop with its float64 accumulator `result` (control flow on exact durations, as in Go) -/
+def chunkLoopF {F : Type} (ops : FloatOps F) (date : Int) : Nat → Int → Int → F → Int × F
+  | 0, _, diff, result => (diff, result)
+  | fuel + 1, tt, diff, result =>
+    if diff ≥ maxDuration then
+      let tt' := tt + (-maxDuration)
+      chunkLoopF ops date fuel tt' (satSub tt' date)
+        (ops.add result (ops.ofInt (maxDuration.tdiv dayNanoseconds)))
+    else (diff, result)
+
+/-- `timeToExcelTime(t, date1904)` with every float64 operation explicit, generic in the carrier:
+instantiated with `Float` in the driver (compared bit for bit with Go) and with rounded rationals in
+the proofs (`Lemmas/DateFloat.lean`) -/
+def timeToExcelTimeF {F : Type} (ops : FloatOps F) (t : Int) (date1904 : Bool) : F :=
+  let date := if date1904 then epoch1904 else minTime1900
+  if t < date then ops.ofInt 0
+  else
+    let fuel := ((t - date) / maxDuration).toNat + 1
+    let p := chunkLoopF ops date fuel t (satSub t date) (ops.ofInt 0)
+    let diff := p.1
+    let rem := diff.tmod dayNanoseconds
+    let result := ops.add p.2
+      (ops.add (ops.div (ops.ofInt (diff - rem)) (ops.ofInt dayNanoseconds))
+               (ops.div (ops.ofInt rem) (ops.ofInt dayNanoseconds)))
+    if !date1904 && t > buggyStart then ops.add result (ops.ofInt 1) else result
+
 /-- the exact serial number -/
 def timeToExcelTime (t : Int) (date1904 : Bool) : Rat :=
   (timeToExcelTimeNs t date1904 : Rat) / (dayNanoseconds : Rat)
